@@ -1,0 +1,62 @@
+//! Verification hooks; only compiled with `--cfg rosu_pp_verif`.
+//!
+//! Purely additive: re-exports of crate-private utilities so that an external
+//! harness can drive them directly, and a seam that lets the harness decide
+//! the iteration order of the one `HashMap` in the crate (`bpm.rs`).
+
+use std::{cell::Cell, collections::HashMap};
+
+pub use crate::util::{
+    limited_queue::LimitedQueue,
+    sort::{csharp as csharp_sort, osu_legacy as osu_legacy_sort, TandemSorter},
+    strains_vec::StrainsVec,
+};
+
+thread_local! {
+    /// `None`: keep the hash map's own iteration order.
+    /// `Some(k)`: iterate the entries, sorted by key, in their `k`-th
+    /// permutation (factorial number system).
+    static BPM_ORDER: Cell<Option<usize>> = const { Cell::new(None) };
+    /// Amount of entries seen by the last `BpmSeam::wrap` on this thread.
+    static BPM_LAST_LEN: Cell<usize> = const { Cell::new(0) };
+}
+
+/// Choose the iteration order for subsequent `Beatmap::bpm` calls on this
+/// thread.
+pub fn set_bpm_order(order: Option<usize>) {
+    BPM_ORDER.with(|c| c.set(order));
+}
+
+/// Amount of distinct beat lengths the last `Beatmap::bpm` call on this
+/// thread iterated over.
+pub fn last_bpm_len() -> usize {
+    BPM_LAST_LEN.with(Cell::get)
+}
+
+/// Stand-in for `BeatLenDuration` whose `map` field iterates in the order
+/// chosen by the harness.
+pub struct BpmSeam {
+    pub map: Vec<(u64, f64)>,
+}
+
+impl BpmSeam {
+    pub fn wrap(map: HashMap<u64, f64>) -> Self {
+        let mut entries: Vec<(u64, f64)> = map.into_iter().collect();
+        BPM_LAST_LEN.with(|c| c.set(entries.len()));
+
+        if let Some(mut k) = BPM_ORDER.with(Cell::get) {
+            entries.sort_by_key(|(bits, _)| *bits);
+            let mut out = Vec::with_capacity(entries.len());
+
+            while !entries.is_empty() {
+                let n = entries.len();
+                out.push(entries.remove(k % n));
+                k /= n;
+            }
+
+            entries = out;
+        }
+
+        Self { map: entries }
+    }
+}
